@@ -74,6 +74,13 @@ CLAIMED["C06"] = {
     "technique": "Coq invariant proof + AST-fingerprint tie + metadata audit on op programs",
 }
 
+CLAIMED["C07"] = {
+    "text": "Coq theorems: in exact arithmetic, for any contraction length, the quantized route (matmul of codes times the product of scales) and the float-activation route equal the product of the DEQUANTIZED operands plus bias; the int32 accumulator of the integer GEMM does not wrap for int8 codes and K < 2^17 and denotes the same number as a float accumulation; the CPU/CUDA/MPS routing decisions and the aten.mm integer condition are read from the source on every run and proved to select each kernel only for the operand dtypes (and size classes) it accepts. Every case of a large grid (rows, features incl. non-multiples of 4/8/16/32, batch ranks, dtypes, activation and weight qtypes, bias) runs in a sacrificial subprocess and is compared with the float64 product of the dequantized operands under an analytic accumulation bound; all routes are called directly on the same operands.",
+    "note": "Trusted: Coq kernel, Reals axioms; gen_mm.py; torch.matmul/_int_mm/_weight_int8pack_mm MODELLED as sums of products (their rounding is bounded by the audit's analytic bound, not proved). Known findings: F14 (int8pack segfault for in_features%16!=0), F23 (float16 scale product underflow), F24 (_int_mm with in_features=1). CUDA/MPS routes never executed.",
+    "design": "6/C07",
+    "technique": "Coq proof (exact arithmetic, routing) + decision extraction tie + crash-isolated differential runs",
+}
+
 NOT_YET = {}
 
 
